@@ -321,6 +321,7 @@ def run_team(ctx, quick):
                         "the machine accepts an order in which the operations can have taken effect"]
     if not rejected and not ofail and pr["ok"]:
         return
+    rejected.sort(key=lambda x: not x[0].startswith("REJECT"))
     if rejected:
         what = "team finish: the machine refuses the real code's event order (%d trees), first: %s" % (len(rejected), rejected[0][0][:400])
     elif not pr["ok"]:
@@ -328,7 +329,7 @@ def run_team(ctx, quick):
     else:
         what = "team finish: machine accepts, property oracle rejects (%d trees)" % len(ofail)
     if ofail:
-        ofail.sort(key=lambda x: len(x[1]["tree"]["nodes"]))
+        ofail.sort(key=lambda x: (x[0][0] in ("crash", "hang", "norun"), len(x[1]["tree"]["nodes"])))   # the most telling one first
         (cls, why), cd = ofail[0]
         ctx.violation("team:" + cls, what + "; failing input: " + why,
                       {"failing_input": cd, "reason": why, "first_rejection": rejected[0] if rejected else None, "coq_log": pr["log"][-1500:]})
